@@ -55,10 +55,16 @@ def run_pair(q, text, T, B=None, check_sources=False, mutate_output=False):
     Bc = copy_table(B)
     exp = rel.run(q, Tc, Bc)
     got = run_rbql(text, T, B, q.ha, q.hb)
-    g, e = normalise(got, exp)
     if check_sources:
-        if mutate_output and got[0] == 'ok':
-            for r in got[1]:
+        live_rows = got[1] if got[0] == 'ok' else (got[3] if got[0] == 'err' else [])
+        if got[0] == 'ok':
+            got = ('ok', [list(r) if isinstance(r, list) else r for r in got[1]], got[2], got[3])
+        elif got[0] == 'err':
+            got = ('err', got[1], got[2], [list(r) if isinstance(r, list) else r for r in got[3]])
+        g, e = normalise(got, exp)
+        if mutate_output:
+            # overwrite and extend every record the query produced: if any of them aliases a source row, the source changes
+            for r in live_rows:
                 if isinstance(r, list):
                     for i in range(len(r)):
                         r[i] = 'MUT'
@@ -66,6 +72,7 @@ def run_pair(q, text, T, B=None, check_sources=False, mutate_output=False):
         same_t = (T == Tc)
         same_b = (B == Bc)
         return ((g, same_t, same_b), (e, True, True))
+    g, e = normalise(got, exp)
     return (g, e)
 
 
